@@ -330,10 +330,29 @@ func entContainer() *restful.Container {
 	return c
 }
 
+// the label a body travels under: when the case declares exactly the media type of the writer that produced the body,
+// the declared type is taken from go-restful's own answer - the Content-Type WriteEntity sends for a client accepting
+// that type, on a response where an earlier stage had put down the OTHER family's type (the writer's label wins)
+func entLabel(rq Sx, ct string) string {
+	canon := []string{"application/json", "application/xml"}
+	codec := sxInt(sxNth(rq, 3))
+	if ct != canon[codec] {
+		return ct
+	}
+	rec := httptest.NewRecorder()
+	resp := restful.NewResponse(rec)
+	resp.SetRequestAccepts(ct)
+	resp.Header().Set("Content-Type", canon[1-codec]+"; charset=utf-8")
+	if err := resp.WriteEntity(entWritten(sxNth(rq, 2))); err != nil {
+		return ct
+	}
+	return rec.Header().Get("Content-Type")
+}
+
 func entServe(c *restful.Container, rq Sx, body []byte) Sx {
 	hr, _ := http.NewRequest("POST", "http://h/e/echo", bytes.NewReader(body))
 	if ct := sxStr(sxNth(rq, 0)); ct != "" {
-		hr.Header.Set("Content-Type", ct)
+		hr.Header.Set("Content-Type", entLabel(rq, ct))
 	}
 	if ce := sxStr(sxNth(rq, 1)); ce != "" {
 		hr.Header.Set("Content-Encoding", ce)
@@ -403,7 +422,17 @@ func runEnt(raw Sx) (Sx, Sx) {
 			wg.Add(1)
 			go func(k int) {
 				defer wg.Done()
-				out[k] = entServe(c3, reqs[k%len(reqs)], bodies[k%len(reqs)])
+				// each client sends its request several times (the windows in which pooled objects change hands are
+				// short); what is recorded is the first answer, or the first later answer that differs from it
+				for rep := 0; rep < 8; rep++ {
+					o := entServe(c3, reqs[k%len(reqs)], bodies[k%len(reqs)])
+					if rep == 0 {
+						out[k] = o
+					} else if SxString(o) != SxString(out[k]) {
+						out[k] = o
+						break
+					}
+				}
 			}(k)
 		}
 		wg.Wait()
